@@ -36,10 +36,10 @@ type c03Frame struct {
 	Sport    uint16  `json:"sport"`
 	Dport    uint16  `json:"dport"`
 	Payload  drv.Hex `json:"payload"`
-	Cap      int     `json:"cap"`    // capacity of the frame buffer
-	Junk     byte    `json:"junk"`   // pre-existing buffer content seed
-	Append   bool    `json:"append"` // AppendPayload (copy) vs SetPayload (in place)
-	First    int     `json:"first"`  // > 0: the headers are first given a payload of this length, then the real one (a body re-sized on the same header)
+	Cap      int     `json:"cap"`            // capacity of the frame buffer
+	Junk     byte    `json:"junk"`           // pre-existing buffer content seed
+	Append   bool    `json:"append"`         // AppendPayload (copy) vs SetPayload (in place)
+	First    int     `json:"first"`          // > 0: the headers are first given a payload of this length, then the real one (a body re-sized on the same header)
 	Keep     bool    `json:"keep,omitempty"` // IPv4 SetPayload only: the view returned for the first body is the one given the real body (IP4.SetPayload sizes its result from the total length, so a view that already has a body may be given another)
 	EchoType byte    `json:"echo_type"`
 	EchoCode byte    `json:"echo_code"`
